@@ -277,10 +277,28 @@ def r6_omen_call_sites(ctx, rule):
     ctx.floor(rule, PGF, n, 2, 'call sites of omen_generate_guesses')
 
 
+def r8_model_order(ctx, rule):
+    """The order of the model's lists is a function of the ruleset files alone.
+
+    The .omn file stores cur_ip = [level, index] and cur_len = [level, index]: positions in grammar['ip'][level] and
+    grammar['ln'][level]. The restoring process rebuilds those lists from disk; they are the same lists only if their
+    order never passes through a set (string hashing is randomised per process, seed C15-e)."""
+    from .common import no_set_order
+    no_set_order(ctx, rule, 'lib_guesser/omen/input_file_io.py', 5, 'the OMEN model',
+                 'the saved Markov position is an index into this list; a list whose order comes from a set of strings '
+                 'differs between the process that saved the session and the one that restores it (hash randomisation), so '
+                 'the restored index denotes another n-gram: strings of the interrupted level are repeated and others skipped')
+
+
+def _model_immutable(ctx, rule):
+    from . import c10
+    return c10.r6_model_immutable(ctx, rule)
+
+
 def rules(tier):
     return [('C15.R1', r1_one_shot_key), ('C15.R2', r2_no_generated_unemitted), ('C15.R3', r3_pickle_layout),
             ('C15.R4', r4_omen_exit_writers), ('C15.R5', lambda c, r: c08.r5_sav_keys(c, r, sections=('guessing_info',), floor=3)),
-            ('C15.R6', r6_omen_call_sites)]
+            ('C15.R6', r6_omen_call_sites), ('C15.R7', _model_immutable), ('C15.R8', r8_model_order)]
 
 
 META = {
